@@ -83,7 +83,10 @@ CLAIMED["C18"] = {
 
 CLAIMED["C09"] = {
     "text": "Lean theorems about the fragment merge of the model: for every fragment list, every direction, after "
-            "merge_recursive no two plain lines (earlier first) are collinear and touching, the loop has reached its "
+            "merge_recursive no two plain lines (earlier first) are collinear and touching; for a WHOLE SCOPE (any span, any "
+            "characters and glyphs of the regenerated tables) no two fragments at different positions of the flattened contact "
+            "groups are plain lines that are collinear and touching, in either order (scope_has_no_collinear_touching_lines: "
+            "table lines are proper grid lines — decided —, merging keeps that, the relation is symmetric for such lines); the loop has reached its "
             "fixpoint (fuel adequacy proved) and a line cannot occur twice; the collinearity test is exact on the "
             "quarter-cell grid; a straight run of unit pieces of ANY length in any of the four directions merges "
             "into exactly one line, dashed iff some piece is dashed (induction over the greedy pass). The whole model "
@@ -135,7 +138,11 @@ CLAIMED["C04"] = {
             "character at the column of the start plus the buffer columns of its predecessors, double-width = 2); the "
             "whole merge_recursive of a scope, for every fragment list and any number of passes, and the contact grouping "
             "preserve the multiset of shown (cell, character) pairs (generic denotation-preservation theorem of the greedy "
-            "loop). End-to-end byte correspondence of the whole model; oracle on the implementation: every text element "
+            "loop). For a whole scope (cells pairwise different, no NUL filler): the tables hold geometry only (decided over "
+            "the regenerated tables), so a cell shows nothing or exactly its own (cell, character); the contact groups show — "
+            "with multiplicity — what the cells show (scope_shows_what_its_cells_show); every label character of the scope "
+            "is shown exactly once (label_shown_exactly_once) and nothing foreign is shown (nothing_foreign_is_shown). "
+            "End-to-end byte correspondence of the whole model; oracle on the implementation: every text element "
             "anchored at a cell anchor, shows the input characters at consecutive display columns, every non-drawing "
             "character covered exactly once, none twice (exhaustive short rows over {a, é, 一, U+0301, space, -} + random).",
     "note": "Trusted: Lean kernel; correspondence; unicode-width values from the real crate; the passage of texts through "
@@ -184,18 +191,28 @@ CLAIMED["C03"] = {
             "strokes of the specification, solid lines only (sound reduction: rows are local in the neighbours they mention "
             "— proved — so diagonals cannot matter — decided — and the 4^4 axis neighbourhoods are decided by kernel "
             "evaluation); label characters have no property; a lone '+' is text; a rectangle replaces exactly four lines that "
-            "are its sides (after the is_rect fix). Line merging preserving strokes is C09. End-to-end: byte correspondence on "
+            "are its sides (after the is_rect fix). Stroked point sets, over RATIONAL points of the plane: merging two collinear "
+            "touching grid lines strokes exactly the union (onSeg_union), hence merge_recursive of any stroke-only scope keeps "
+            "the stroked point set (generic union-preservation theorem of the greedy loop), the fragment buffer / "
+            "abs_fragment_spans / contact grouping add and lose nothing, so scope_strokes_exactly_the_specified: for EVERY "
+            "span over the alphabet the contact groups stroke exactly the specified strokes of its cells; and a rectangle's "
+            "outline is exactly the union of the four lines it replaces (rect_outline_is_its_lines). End-to-end: byte correspondence on "
             "the same grids, and the stroke oracle (independent reference renderer, quarter-unit edge sets) exhaustively on "
             "all grids up to 2x3/3x2/1x6 (quick) or 3x3, 2x4, 4x2, 1x8, 8x1 (thorough) plus random grids up to 14x8.",
-    "note": "Trusted: Lean kernel; table translator (validated against the real closures); correspondence; the composition "
-            "'per-cell strokes -> merged lines -> rect' into one end-to-end theorem is not yet proved (oracle covers it).",
+    "note": "Trusted: Lean kernel; table translator (validated against the real closures); correspondence; the theorems cover "
+            "cells -> fragment buffer -> merged lines -> contact groups, and group -> rectangle; the re-computation of rejected "
+            "groups on their reduced spans (stage 11) is not a theorem (oracle and correspondence cover it).",
     "technique": "Lean 4 proof (decide +kernel over regenerated table with proved locality reduction; rect soundness) + byte-level correspondence + exhaustive small-grid stroke oracle",
     "design_ref": "5 (C03)",
 }
 CLAIMED["C05"] = {
     "text": "Lean theorem rect_only_from_its_four_sides: a contact group is endorsed as a sharp rectangle only if it has exactly "
             "four fragments and each side of the emitted rectangle (= the group's bounding box) is one of the group's lines — "
-            "ladders, an H with two bars and overhanging sides are never endorsed (true since the is_rect fix). Completeness "
+            "ladders, an H with two bars and overhanging sides are never endorsed (true since the is_rect fix); for groups of "
+            "proper grid lines the group IS the four sides and the rectangle's outline is, as a set of rational points, exactly "
+            "the union of the group's lines (rect_outline_is_exactly_the_group, group_is_the_four_sides). Completeness at the "
+            "endorsement stage for EVERY box: the four side lines of any box x0<x1, y0<y1, solid or dashed, are endorsed as "
+            "exactly its rectangle, dashed iff some side is (every_box_is_endorsed). Completeness end to end "
             "(every box of the family -> exactly one rect with position, size, radius, dashed class) is checked on the "
             "implementation by the bounded sweep (widths 0..20 x heights 0..10 quick, 0..60 x 0..30 thorough, x offsets x "
             "corner styles x edge styles x interior text) and soundness of every emitted rect on random grids; byte-level "
